@@ -70,7 +70,7 @@ fn wvar_q<const N: usize>(ddof: i64) {
 fn c07_wvar_q_n3_ddof1() {
     wvar_q::<3>(1);
 }
-//@ prop=C07 tier=quick mem=4 timeout=2400 uses=Q inst="weighted_var on Array1<Q> len 3, ddof 0" bounds="x in 0..=3, w in 1..=4; unwind 18"
+//@ prop=C07 tier=thorough mem=4 timeout=2400 uses=Q inst="weighted_var on Array1<Q> len 3, ddof 0" bounds="x in 0..=3, w in 1..=4; unwind 18"
 #[kani::proof]
 #[kani::unwind(18)]
 fn c07_wvar_q_n3_ddof0() {
@@ -87,6 +87,42 @@ fn c07_wvar_q_n1_ddof0() {
 #[kani::unwind(18)]
 fn c07_wvar_q_n4_ddof1() {
     wvar_q::<4>(1);
+}
+
+/// weighted_var with data and weights in DIFFERENT memory orders (data: reversed view, weights:
+/// plain; both contiguous) — pairing must be by logical index.
+fn wvar_q_layouts<const N: usize>(ldata: u8, lw: u8, ddof: i64) {
+    let mut x = [0i64; N];
+    let mut w = [0i64; N];
+    let mut bx = [Q::int(0); N];
+    let mut bw = [Q::int(0); N];
+    let mut bws = 0i64;
+    let mut swx = 0i64;
+    let mut swxx = 0i64;
+    let mut k = 0;
+    while k < N {
+        x[k] = small();
+        w[k] = small() + 1;
+        bx[pos1(ldata, N, k)] = Q::int(x[k]);
+        bw[pos1(lw, N, k)] = Q::int(w[k]);
+        bws += w[k];
+        swx += w[k] * x[k];
+        swxx += w[k] * x[k] * x[k];
+        k += 1;
+    }
+    kani::assume(bws != ddof);
+    let xv = carve1(&mut bx, ldata, N);
+    let wv = carve1(&mut bw, lw, N);
+    let v = xv.view().weighted_var(&wv.view(), Q::int(ddof)).unwrap();
+    assert!(v == Q { n: bws * swxx - swx * swx, d: bws * (bws - ddof) }, "data and weights are paired by logical index whatever their memory order");
+    kani::cover!(x[0] != x[N - 1] && w[0] != w[N - 1], "W: asymmetric data and weights");
+}
+
+//@ prop=C07,C20:thorough tier=quick mem=4 timeout=2400 uses=Q inst="weighted_var on ArrayView1<Q> len 3: data reversed (stride -1), weights unit stride, ddof 0" bounds="x in 0..=3, w in 1..=4; unwind 18"
+#[kani::proof]
+#[kani::unwind(18)]
+fn c07_wvar_q_n3_rev_data() {
+    wvar_q_layouts::<3>(3, 0, 0);
 }
 
 /// central_moment(p), every entry of central_moments(p), kurtosis at Q, n = 3.
